@@ -9,16 +9,17 @@ from decimal import Decimal as D
 ID = "C12"
 LEVEL = "exploration"
 TECHNIQUE = "online-recorded callback trace checked by a step automaton; agent_statistics keys vs expected time list"
-RULE = ("lattice start<=stop in -2..6 (integers, incl. stop=0) x dt in {1,.5,.25,.2,.1} x populations of 0-6 agents of 1-2 types "
-        "x collect on/off x scripted creation/deletion in begin_round/end_round; three drivers: Model.run, bptk.run_scenarios on "
+RULE = ("lattice start<=stop in -2..6 (integers, incl. stop=0) x dt in {1,.5,.25,.2,.1} (plus dt=1/n for n in 3,7,49,93,105,186,... on short ranges) x populations of 0-6 agents of 1-2 types "
+        "x collect on/off x scripted creation/deletion in begin_round/end_round and from inside act() (an agent deletes itself, an earlier or a later agent, or creates one: only agents alive throughout the step are judged there); three drivers: Model.run, bptk.run_scenarios on "
         "1-3 scenarios of one manager (threads), externally driven Model.run_step. distinct_nontrivial = distinct "
         "(driver, start, stop, dt, collect, has-population-change) combinations with at least 2 steps and 1 agent.")
 ASSUMPTIONS = ["run specs are integers set through run_specs/configure as the scenario loader does (Model(starttime=..) stores floats, which range() rejects: API precondition, not judged)",
-               "population changes happen only in begin_round/end_round (mid-act changes are ambiguous in the statement)",
+               "for a population change made inside act() the statement is read as: every agent alive before and after the step acts exactly once, in creation order; agents deleted or created inside the step may act at most once",
                "time is compared with round+step*dt up to 1e-9"]
-REQUIRED = {"steps_observed": 2000, "acts_observed": 2000, "collects_observed": 1000}
+REQUIRED = {"steps_observed": 2000, "acts_observed": 2000, "collects_observed": 1000, "steps_with_population_change_inside_act": 50}
 BUDGET_S = {"quick": 100, "thorough": 900}
 DTS = ["1", "0.5", "0.25", "0.2", "0.1"]
+RECIP = [3, 7, 93, 105, 49, 186, 99, 117, 123, 198, 210, 211, 6, 9, 12, 100, 1000]
 
 
 def gen_cases(tier, seed):
@@ -36,7 +37,7 @@ def gen_cases(tier, seed):
                     if tier == "quick" and driver != "run" and rng.random() < 0.5:
                         continue
                     n_agents = rng.choice([0, 1, 2, 3, 6])
-                    steps = (e - s + 1) * int(round(1 / float(dt)))
+                    steps = (e - s + 1) * int(round(1 / dt_float(dt)))
                     script = {"begin": {}, "end": {}}
                     changes = rng.random() < 0.6
                     if changes:
@@ -47,8 +48,24 @@ def gen_cases(tier, seed):
                                 script[ph].setdefault(k, []).append(["create", rng.choice(["a", "b"]), None])
                             else:
                                 script[ph].setdefault(k, []).append(["delete", rng.randrange(0, 6)])
+                    if changes and n_agents >= 2 and rng.random() < 0.5:
+                        # a population change from inside act(): an agent deletes itself / an earlier / a later agent, or creates one
+                        for _ in range(rng.randint(1, 2)):
+                            k = str(rng.randrange(steps))
+                            actor = rng.randrange(n_agents)
+                            op = ["delete", rng.choice([actor, max(0, actor - 1), min(n_agents - 1, actor + 1), 0])] if rng.random() < 0.75 else ["create", rng.choice(["a", "b"]), None]
+                            script.setdefault("act", {}).setdefault(k, {}).setdefault(str(actor), []).append(op)
                     cases.append(dict(start=s, stop=e, dt=dt, collect=collect, driver=driver, n_agents=n_agents,
                                       script=script, changes=changes, nscen=rng.randint(1, 3)))
+    # dt = 1/n for n that are not exact in binary (1/dt computed in floating point may fall just below n): all three drivers
+    for n in RECIP if tier == "thorough" else RECIP[:6]:
+        for (s, e) in ((0, 1), (3, 4), (-1, 0)) if tier == "thorough" else ((0, 1), (3, 4)):
+            for collect in (True, False):
+                for driver in ("run", "steps", "bptk"):
+                    if driver == "bptk" and (not collect or n > 50):
+                        continue
+                    cases.append(dict(start=s, stop=e, dt="1/%d" % n, collect=collect, driver=driver, n_agents=rng.choice([1, 2]),
+                                      script={"begin": {}, "end": {}}, changes=False, nscen=1))
     return cases
 
 
@@ -56,12 +73,18 @@ def EXHAUSTIVE(tier):
     return tier == "thorough"
 
 
+def dt_float(dt):
+    return 1.0 / int(dt[2:]) if dt.startswith("1/") else float(dt)
+
+
 def expected_steps(case):
-    n = int(D(1) / D(case["dt"]))
+    from fractions import Fraction
+    d = Fraction(case["dt"])
+    n = int(1 / d)
     out = []
     for r in range(case["start"], case["stop"] + 1):
         for s in range(n):
-            out.append((r, s, float(D(r) + s * D(case["dt"]))))
+            out.append((r, s, float(r + s * d)))
     return out
 
 
@@ -90,6 +113,32 @@ def check_log(log, steps, collect, final_only_time=None):
         if ids != sorted(ids):
             # ids are issued in creation order, so the live population must be listed (and act) in increasing id order
             return dict(kind="creation-order", step=(r, s, t), agents=ids), stats
+        # population changes made from inside act() in this step: only the agents that are alive throughout are judged
+        j = i
+        mid = []
+        while j < n and log[j][0] != "end":
+            if log[j][0] == "op" and log[j][1] == "act":
+                mid.append(log[j])
+            j += 1
+        if mid:
+            deleted = set(op[2][1] for op in mid if op[2][0] == "delete")
+            survivors = [a for a in ids if a not in deleted]
+            seq = [(e[0], e[1]) for e in log[i:j] if e[0] in ("handle", "act")]
+            if any(abs(e[2] - t) > 1e-9 for e in log[i:j] if e[0] in ("handle", "act")):
+                return dict(kind="agent-order", step=(r, s, t), msg="callback with a foreign time", agents=ids), stats
+            acted = [a for (k_, a) in seq if k_ == "act"]
+            if len(acted) != len(set(acted)):
+                return dict(kind="acts-twice", step=(r, s, t), acted=acted, agents=ids), stats
+            for a in survivors:
+                if acted.count(a) != 1 or ("handle", a) not in seq or seq.index(("handle", a)) > seq.index(("act", a)):
+                    return dict(kind="survivor-does-not-act-once", step=(r, s, t), agent=a, acted=acted, agents=ids, deleted_in_act=sorted(deleted)), stats
+            order = [a for a in acted if a in survivors]
+            if order != sorted(order):
+                return dict(kind="agent-order", step=(r, s, t), acted=acted, agents=ids), stats
+            stats["acts"] += len(acted)
+            stats["mid_act_changes"] = stats.get("mid_act_changes", 0) + 1
+            i = j
+            ids = []
         for a in ids:
             i = skip_noise(i)
             if i >= n or log[i][0] != "handle" or log[i][1] != a or abs(log[i][2] - t) > 1e-9:
@@ -123,7 +172,7 @@ def run_case(case):
     from vlib import abm
     counters = {}
     steps = expected_steps(case)
-    dt = float(case["dt"])
+    dt = dt_float(case["dt"])
     # interleaved creation order of the two types (a b a b ...), so that "creation order" differs from "grouped by type"
     agents = [{"name": "ab"[i % 2], "count": 1} for i in range(case["n_agents"])]
     logs = []
@@ -166,6 +215,7 @@ def run_case(case):
         counters["steps_observed"] = counters.get("steps_observed", 0) + st["steps"]
         counters["acts_observed"] = counters.get("acts_observed", 0) + st["acts"]
         counters["collects_observed"] = counters.get("collects_observed", 0) + st["collects"]
+        counters["steps_with_population_change_inside_act"] = counters.get("steps_with_population_change_inside_act", 0) + st.get("mid_act_changes", 0)
         if w is None:
             exp_t = [t for (_, _, t) in steps] if collect else [steps[-1][2]]
             got = list(stats_keys.keys())
